@@ -47,7 +47,15 @@ OUTER:
 			if m.waitDirtyIncomingCh != nil && // Merger is indeed asleep.
 				(m.stackDirtyMid != nil && len(m.stackDirtyMid.a) > 0) &&
 				(m.stackDirtyTop == nil || len(m.stackDirtyTop.a) <= 0) {
-				m.NotifyMerger("from-persister", false)
+				// The collection lock is held here, so the notification
+				// must not block: the merger, the only receiver of the
+				// ping channel, may need the lock before it receives
+				// again.  A full channel means that wake-ups for the
+				// merger are pending anyway.
+				select {
+				case m.pingMergerCh <- ping{kind: "from-persister"}:
+				default:
+				}
 			}
 
 			atomic.AddUint64(&m.stats.TotPersisterWaitBeg, 1)
